@@ -581,11 +581,19 @@ class DoctestParser:
                 else:
                     yield line
 
+        plain_source_block = '\n'.join(exec_source_lines)
         exec_source_lines = list(_hack_comment_statements(exec_source_lines))
 
         source_block = '\n'.join(exec_source_lines)
         try:
-            pt = static.six_axt_parse(source_block)
+            try:
+                pt = static.six_axt_parse(source_block)
+            except SyntaxError:
+                # A statement is not valid everywhere a comment is (between
+                # a decorator and its def, in front of an else): try the
+                # lines as they were written.
+                pt = static.six_axt_parse(plain_source_block)
+                source_block = plain_source_block
         except SyntaxError as syn_ex:
             # Assign missing information to the syntax error.
             if syn_ex.text is None:
